@@ -45,11 +45,15 @@ def mk_factory(sc):
     base = "Memo" if memo else "Once"
 
     def mk(d, kind):
+        # kinds: "mc" (coarse, every interleaving of the wake-ups), "graph" (coarse, eager wake-ups: source of the
+        # schedules), "fine" (Once only, model check only: the end of a critical section is a scheduling point too,
+        # as in sched.Exec.ParkUnl executions)
         consts = ["Prog <- ScProg", "Outs <- ScOuts", "EagerWake = %s" % ("TRUE" if kind == "graph" else "FALSE")]
         if not memo:
             consts.append("MaxCalls = %d" % sc["maxcalls"])
+            consts.append("Fine = %s" % ("TRUE" if kind == "fine" else "FALSE"))
         cfg = ["INIT Init", "NEXT Next", "CHECK_DEADLOCK FALSE", "CONSTANTS"] + [" " + c for c in consts]
-        if kind == "mc":
+        if kind in ("mc", "fine"):
             cfg += ["INVARIANTS TypeOK ModelSafe QuietInv" + ("" if memo else " BoundNotHit PromOK")]
         vlib.write_mc(d, "MC", base, ["ScProg == " + vlib.json2tla(sc["clients"]), "ScOuts == " + tla_set(sc["outs"])], cfg)
     return mk
@@ -64,6 +68,16 @@ def one_model(wd, tier, seed, name):
                                                cap=2500 if quick else 20000,
                                                invariant_cfg={"specdirs": ["once", "lib"]}, graph_cfg=None,
                                                workers=w, timeout=1500, dump_graph=not big)
+    if sc["kind"] == "once" and not big:
+        # X |= P at the fine granularity (OnceP rests on sound bounds only: it must hold unchanged)
+        d = vlib.spec_scratch(wd, name + "-fine", ["once", "lib"])
+        mk_factory(sc)(d, "fine")
+        rn = vlib.run_tlc(d, "MC", "MC.cfg", workers=w, timeout=900)
+        shutil.rmtree(d, ignore_errors=True)
+        vlib.log("[model] %s (fine): %d distinct states, %d transitions generated ok=%s" % (name, rn["distinct"], rn["states"], rn["ok"]))
+        r = dict(r, distinct=r["distinct"] + rn["distinct"], states=r["states"] + rn["states"])
+        if not rn["ok"]:
+            notes.append("model %s (fine): %s %s" % (name, rn["error"], rn["violated"]))
     return name, sc, r, paths, notes
 
 
@@ -133,7 +147,7 @@ def x_conformance(wd, binp, seed, names, nsched=60, nrand=40, scheds=None):
             res["samples"].append("%s: harness failed" % name)
             return res
         d = vlib.spec_scratch(wd, "x-" + name, ["once", "lib"])
-        consts = ["Prog <- ScProg", "Outs <- ScOuts", "EagerWake = FALSE"] + ([] if memo else ["MaxCalls = %d" % sc["maxcalls"]])
+        consts = ["Prog <- ScProg", "Outs <- ScOuts", "EagerWake = FALSE"] + ([] if memo else ["MaxCalls = %d" % sc["maxcalls"], "Fine = FALSE"])
         vlib.write_mc(d, "MCX", "MemoXTrace" if memo else "OnceXTrace",
                       ["ScProg == " + vlib.json2tla(sc["clients"]), "ScOuts == " + tla_set(sc["outs"])],
                       ["INIT TInit", "NEXT TNext", "CHECK_DEADLOCK FALSE", "CONSTANTS"] + [" " + c for c in consts])
